@@ -9,7 +9,7 @@ from typing import Dict, List, Optional, Set, Tuple
 from ..core import astutil as A
 from ..core.index import AnalysisError, FuncInfo
 from ..selftest import M
-from .common import BASE_OUTLINE, OTF_OUTLINE, TTF_OUTLINE, T, attr_stores, calls_named, conds, every_origin, facts, may_conds, need, subscript_stores, where
+from .common import entails, BASE_OUTLINE, OTF_OUTLINE, TTF_OUTLINE, T, attr_stores, calls_named, conds, every_origin, facts, may_conds, need, subscript_stores, where
 from .rounding import is_otround
 
 
@@ -25,6 +25,8 @@ def run(prog, chk):
         "OS/2 first / last character index = min / max of the mapped code points, last capped at 0xFFFF, 0xFFFF without code points; maxp.numGlyphs = number of glyphs in the glyph order; post 2.0 names follow the glyph order; VORG default = most frequent origin, records for the others (R04.6)",
         "a glyph loses its box only when the compiled glyph has no outline (all-zero box) (R04.9); no advance / vertical origin / box value is dropped or defaulted by a truthiness test (R04.10)",
     ]
+    chk.decided += ["the CFF glyph box encloses the compiled outline: a box value is only rounded to nearest where the charstring pen rounds the coordinate too (tolerance >= 0.5, or the value within the "
+                    "tolerance of its rounding - fontTools' roundFunc), otherwise minima are floored and maxima ceiled; pen and box use the same tolerance (R04.11)"]
     chk.not_decided += ["save / reload / re-save byte identity (fontTools)", "glyph bounding box arithmetic (pens)", "values recalculated by fontTools at compile time (maxp for glyf, OS/2 indices)"]
     chk.guard(r041, prog, chk)
     chk.guard(r042, prog, chk)
@@ -36,6 +38,7 @@ def run(prog, chk):
     chk.guard(r048, prog, chk)
     chk.guard(r049, prog, chk)
     chk.guard(r0410, prog, chk)
+    chk.guard(r0411, prog, chk)
 
 
 # ----------------------------------------------------------------------------- R04.1
@@ -446,7 +449,155 @@ def r0410(prog, chk):
     chk.minimum("R04.10", 1)
 
 
+# ----------------------------------------------------------------------------- R04.11
+class _C:
+    def __init__(self, test, polarity):
+        self.test, self.polarity = test, polarity
+
+
+def _split_chain(e):
+    """a < b < c  ->  a < b and b < c (copies; the originals are left alone)."""
+    class Tr(ast.NodeTransformer):
+        def visit_Compare(self, n):
+            self.generic_visit(n)
+            if len(n.ops) == 1:
+                return n
+            parts, left = [], n.left
+            for op, right in zip(n.ops, n.comparators):
+                parts.append(ast.Compare(left=left, ops=[op], comparators=[right]))
+                left = right
+            return ast.BoolOp(op=ast.And(), values=parts)
+    import copy
+    return ast.fix_missing_locations(Tr().visit(copy.deepcopy(e)))
+
+
+def r0411(prog, chk):
+    """fontTools.misc.roundTools.roundFunc: the charstring pen rounds every coordinate when tolerance >= 0.5, none when it is 0,
+    and otherwise those within the tolerance of their rounding.  A box value may be otRound-ed exactly where the pen did the same;
+    everywhere else the box has to be widened (floor for minima, ceil for maxima) or it no longer encloses the outline, and the
+    bearings derived from it are off by one."""
+    ix = prog.ix
+    m = ix.get_method(OTF_OUTLINE, "makeGlyphsBoundingBoxes", own=True)
+    helpers = [f for f in ix.functions.values() if f.parent is m and not isinstance(f.node, ast.Lambda)]
+    need(len(helpers) == 1 and len(helpers[0].params()) == 2, f"cannot interpret {m.short}: integer conversion helper")
+    h = helpers[0]
+    pv, pcb = h.params()
+    hlocals = {n.id for n in ast.walk(h.node) if isinstance(n, ast.Name) and isinstance(n.ctx, ast.Store)} | {pv, pcb}
+
+    def is_tol(e):
+        if T(e) == "self.roundTolerance":
+            return True
+        if isinstance(e, ast.Name) and e.id not in hlocals:  # closure variable of the enclosing method
+            ds = [s for s in A.stmts_of(m.node) if isinstance(s, ast.Assign) and any(e.id in A.target_names(t) for t in s.targets)]
+            return bool(ds) and all(T(s.value) == "self.roundTolerance" for s in ds)
+        if isinstance(e, ast.Name) and e.id not in (pv, pcb):
+            ds = [s_ for s_ in A.stmts_of(h.node) if isinstance(s_, ast.Assign) and any(e.id in A.target_names(t) for t in s_.targets)]
+            return bool(ds) and all(len(s_.targets) == 1 and isinstance(s_.targets[0], ast.Name) and is_tol(s_.value) for s_ in ds)
+        return False
+
+    def is_rounded(e):
+        if isinstance(e, ast.Call) and is_otround(prog, h, e) and len(e.args) == 1 and T(e.args[0]) == pv:
+            return True
+        if isinstance(e, ast.Name) and e.id in hlocals and e.id not in (pv, pcb):
+            # every binding of the local (the tests are analysed on copies, so no flow-sensitive lookup here)
+            ds = [s_ for s_ in A.stmts_of(h.node) if isinstance(s_, ast.Assign) and any(e.id in A.target_names(t) for t in s_.targets)]
+            return bool(ds) and all(len(s_.targets) == 1 and isinstance(s_.targets[0], ast.Name) and is_rounded(s_.value) for s_ in ds)
+        return False
+
+    def is_dist(e):
+        if not (isinstance(e, ast.Call) and A.callee_name(e) == "abs" and len(e.args) == 1 and isinstance(e.args[0], ast.BinOp) and isinstance(e.args[0].op, ast.Sub)):
+            return False
+        a, b = e.args[0].left, e.args[0].right
+        return (is_rounded(a) and T(b) == pv) or (is_rounded(b) and T(a) == pv)
+
+    FLIP = {ast.Lt: ast.Gt, ast.Gt: ast.Lt, ast.LtE: ast.GtE, ast.GtE: ast.LtE}
+
+    def atomize(e):
+        p = A.compare_parts(e)
+        if not p:
+            return None
+        l, op, r = p
+        if type(op) not in FLIP:
+            return None
+        # distance against the tolerance
+        if is_dist(r) and is_tol(l):
+            l, r, op = r, l, FLIP[type(op)]()
+        if is_dist(l) and is_tol(r):
+            return {ast.LtE: (("close",), True), ast.Gt: (("close",), False), ast.Lt: (("closer",), True), ast.GtE: (("closer",), False)}[type(op)]
+        # tolerance against a number
+        if is_tol(r) and isinstance(l, ast.Constant) and isinstance(l.value, (int, float)):
+            l, r, op = r, l, FLIP[type(op)]()
+        if is_tol(l) and isinstance(r, ast.Constant) and isinstance(r.value, (int, float)) and not isinstance(r.value, bool):
+            c = float(r.value)
+            return {ast.GtE: (("ge", c), True), ast.Lt: (("ge", c), False), ast.Gt: (("gt", c), True), ast.LtE: (("gt", c), False)}[type(op)]
+        return None
+
+    def consistent(env):
+        if env[("closer",)] and not env[("close",)]:
+            return False
+        nums = [(k, v) for k, v in env.items() if k[0] in ("ge", "gt")]
+        cs = sorted({k[1] for k, _ in nums})
+        pts = set(cs) | {cs[0] - 1, cs[-1] + 1} | {(a + b) / 2 for a, b in zip(cs, cs[1:])}
+        return any(all(((t >= k[1]) if k[0] == "ge" else (t > k[1])) == v for k, v in nums) for t in pts)
+
+    goal = lambda env: env[("ge", 0.5)] or env[("close",)]
+    n = 0
+    for ret in A.returns_of(h.node):
+        v = ret.value
+        cl = [_C(_split_chain(c.test), c.polarity) for c in conds(prog, h, ret) if c.polarity in (True, False)]
+        if v is not None and is_rounded(v):
+            n += 1
+            ok = entails(cl, atomize, goal, constraints=consistent, goal_atoms=(("ge", 0.5), ("close",), ("closer",)))
+            chk.ob("R04.11", f"{m.short}|a box value is rounded to nearest only where the charstring pen rounds the coordinate too", ok, where(h, ret),
+                   detail="return otRound(value) under `tolerance >= 0.5 or abs(otRound(value) - value) <= tolerance`",
+                   message=f"{m.short}: a box value can be rounded to nearest although the pen kept the coordinate as a float (tolerance below 0.5 and the value further from its rounding "
+                           f"than the tolerance, e.g. roundTolerance=0): the box no longer encloses the outline and the side bearings derived from it are wrong")
+        else:
+            ok = isinstance(v, ast.Call) and A.callee_name(v) == "int" and len(v.args) == 1 and isinstance(v.args[0], ast.Call) and T(v.args[0].func) == pcb and [T(a) for a in v.args[0].args] == [pv]
+            chk.ob("R04.11", f"{m.short}|otherwise the value goes through the widening callback", ok, where(h, ret), detail=T(v) if v is not None else "None",
+                   message=f"{m.short}: an unrounded coordinate is not widened with the floor / ceil callback (`{T(v, 50) if v is not None else None}`)")
+            ok = entails(cl, atomize, lambda env: not goal(env), constraints=consistent, goal_atoms=(("ge", 0.5), ("close",), ("closer",)))
+            chk.ob("R04.11", f"{m.short}|a box value is only widened where the pen kept the coordinate unrounded", ok, where(h, ret),
+                   detail="floor / ceil under `tolerance < 0.5 and abs(otRound(value) - value) > tolerance`",
+                   message=f"{m.short}: a box value can be floored / ceiled although the pen rounded that coordinate to nearest: the box is then larger than the outline "
+                           f"and the side bearings derived from it are off by one")
+    need(n >= 1, f"cannot interpret {h.short}: no rounded return")
+    # minima floored, maxima ceiled
+    calls = [c for c in A.body_nodes(m.node) if isinstance(c, ast.Call) and isinstance(c.func, ast.Name) and c.func.id == h.name and ix.enclosing_function(c) is m]
+    seen = {}
+    for c in calls:
+        loops = [a for a in ix.ancestors(c) if isinstance(a, ast.For)]
+        need(len(c.args) == 2 and loops and isinstance(loops[0].iter, ast.Subscript) and isinstance(loops[0].iter.slice, ast.Slice) and T(c.args[0]) in A.target_names(loops[0].target),
+             f"cannot interpret {m.short}: `{T(c, 50)}`")
+        sl = loops[0].iter.slice
+        half = "min" if (sl.lower is None and A.is_const(sl.upper, 2)) else "max" if (A.is_const(sl.lower, 2) and sl.upper is None) else "?"
+        seen[half] = T(c.args[1])
+    ok = seen == {"min": "math.floor", "max": "math.ceil"}
+    chk.ob("R04.11", f"{m.short}|minima (bounds[:2]) are floored and maxima (bounds[2:]) are ceiled", ok, where(m), detail=str(seen),
+           message=f"{m.short}: the widening direction is wrong ({seen}): unrounded minima must be floored and maxima ceiled for the box to enclose the outline")
+    # the pen rounds with the same tolerance
+    g = ix.get_method(OTF_OUTLINE, "getCharStringForGlyph", own=True)
+    pens = [c for c in A.body_nodes(g.node) if isinstance(c, ast.Call) and A.callee_name(c) == "T2CharStringPen"]
+    need(len(pens) == 1, f"cannot interpret {g.short}: charstring pen")
+    kv = A.kwarg(pens[0], "roundTolerance")
+    ok = kv is not None and T(kv) == "self.roundTolerance"
+    chk.ob("R04.11", f"{g.short}|the charstring pen rounds with the same tolerance", ok, where(g, pens[0]), detail=T(pens[0], 90),
+           message=f"{g.short}: the charstring pen is not given self.roundTolerance (`{T(kv) if kv is not None else 'default'}`): outline and boxes are rounded by different rules")
+    chk.minimum("R04.11", 5)
+
+
 MUTANTS = [
+    M("boxes rounded to nearest when nothing is rounded (seeded C04i)", "ufo2ft/outlineCompiler.py", "OutlineOTFCompiler.makeGlyphsBoundingBoxes",
+      "tolerance = self.roundTolerance", "tolerance = self.roundTolerance\npartialRounding = 0 < tolerance < 0.5", rule="R04.11",
+      also=(("ufo2ft/outlineCompiler.py", "OutlineOTFCompiler.makeGlyphsBoundingBoxes.toInt", "tolerance >= 0.5 or abs(rounded - value) <= tolerance", "not partialRounding or abs(rounded - value) <= tolerance"),)),
+    M("box rounding threshold lowered", "ufo2ft/outlineCompiler.py", "OutlineOTFCompiler.makeGlyphsBoundingBoxes.toInt",
+      "tolerance >= 0.5", "tolerance >= 0.25", rule="R04.11"),
+    M("maxima floored", "ufo2ft/outlineCompiler.py", "OutlineOTFCompiler.makeGlyphsBoundingBoxes",
+      "rounded.append(toInt(value, math.ceil))", "rounded.append(toInt(value, math.floor))", rule="R04.11"),
+    M("box guard written the other way round", "ufo2ft/outlineCompiler.py", "OutlineOTFCompiler.makeGlyphsBoundingBoxes.toInt",
+      "tolerance >= 0.5 or abs(rounded - value) <= tolerance", "not (tolerance < 0.5 and tolerance < abs(value - rounded))", kind="equiv"),
+    M("box guard stricter than the pen's (box larger than the outline at the boundary)", "ufo2ft/outlineCompiler.py", "OutlineOTFCompiler.makeGlyphsBoundingBoxes.toInt",
+      "tolerance >= 0.5 or abs(rounded - value) <= tolerance", "tolerance >= 1 or abs(rounded - value) < tolerance", rule="R04.11"),
     M("an explicit vertical origin of 0 falls back to the ascender", "ufo2ft/outlineCompiler.py", "_getVerticalOrigin",
       "hasattr(glyph, 'verticalOrigin') and glyph.verticalOrigin is not None", "hasattr(glyph, 'verticalOrigin') and glyph.verticalOrigin", rule="R04.10"),
     M("zero-width glyphs get no hmtx advance of their own", "ufo2ft/outlineCompiler.py", "BaseOutlineCompiler.setupTable_hmtx",
